@@ -152,7 +152,7 @@ def run(ctx):
                             "non-trivial = the model predicts at least one collision or the program has same-named declarations")
     tables = sysgen.live_tables(ctx)
     cases = [corpus_case(c) for c in CORPUS]
-    for i in range(ctx.n(110, 2000)):
+    for i in range(ctx.n(90, 2000)):
         cases.append(make_case(f"{ctx.seed}/c15/{i}"))
     results = sysgen.run_jobs(ctx, [c[0] for c in cases], tag="c15")
     breaks = []
